@@ -419,6 +419,26 @@ func init() {
 				}
 				for _, v := range requiredFamily(body) {
 					run(v.Class, v.Body)
+					// the same body once more: the first delivery (400) has
+					// left the id in the inbox, which is the state the
+					// second one meets - the body lacks what it lacked
+					if id, _ := v.Body["id"].(string); rq.Kind == "PostInbox" && id != "" {
+						sc := cloneScenario(base)
+						sc.Name = ce.Name + "/" + v.Class + ",repeated-delivery"
+						sc.Requests = sc.Requests[:1]
+						sc.Requests[0].Body = v.Body
+						if sc.Inboxes == nil {
+							sc.Inboxes = map[string][]interface{}{}
+						}
+						sc.Inboxes[rq.URL] = append([]interface{}{id}, sc.Inboxes[rq.URL]...)
+						res := sim.Run(sc)
+						r.Eval(1)
+						r.Count("family_repeated_deliveries", 1)
+						exp := expectation{Endpoint: rq.Kind, AP: "yes", BodyClass: "missing-required-member,repeated-delivery"}
+						r.NonTrivial(sc.Name)
+						report(sc, exp, res, outcomeMonitor(rq.Kind, res.Responses[0]))
+						report(sc, exp, res, judgeStatus(exp, sc, res))
+					}
 				}
 				// the application's own callback reports the object / target
 				// as missing (the documented sentinel errors): 400 as well
